@@ -32,40 +32,40 @@ uint64_t __CPROVER_uninterpreted_CLOF(uint64_t state);      /* the cluster a sta
 #define CONS      __CPROVER_loop_invariant((wp != wc || r_wp == r_wc) && (wp != wo || r_wp == r_wo) && (wc != wo || r_wc == r_wo))
 #define W_INV     CONS __CPROVER_loop_invariant((r_wp && !pend_wp) ==> r_wc)
 #define CARRY     CONS __CPROVER_loop_invariant((!q_is_wp && r_wp && !pend_wp) ==> r_wc) __CPROVER_loop_invariant(T_REACH[g_q] != 0)
-#define LOOPASG_RUS__B_while_cond , INNER_G, seen_a, cur_a, g_q, g_back, q_is_wp, cell_back
+#define LOOPASG_RUS__L_WORK , INNER_G, seen_a, cur_a, g_q, g_back, q_is_wp, cell_back
 #define INNER_G r_wp, r_wc, r_wo, pend_wp, seen_b, cur_b, seen_c, cell_child, cell_tup, cell_clu
-#define LOOP_RUS__B_while_cond W_INV
-#define LOOPASG_RUS__B_for_cond   , INNER_G, seen_a, cur_a
-#define LOOPASG_RUS__B_for_cond31 , r_wp, r_wc, r_wo, pend_wp, seen_b, cur_b, seen_c, cell_child, cell_tup
-#define LOOPASG_RUS__B_for_cond40 , r_wp, r_wc, r_wo, pend_wp, seen_c, cell_child
-#define LOOP_RUS__B_for_cond \
-  CARRY __CPROVER_loop_invariant(v___end2_slot.f0.f0 == 0) \
-  __CPROVER_loop_invariant((q_is_wp && v___begin2_slot.f0.f0 == 0) ==> seen_a) \
+#define LOOP_RUS__L_WORK W_INV
+#define LOOPASG_RUS__L_SYMS   , INNER_G, seen_a, cur_a
+#define LOOPASG_RUS__L_TUPLES , r_wp, r_wc, r_wo, pend_wp, seen_b, cur_b, seen_c, cell_child, cell_tup
+#define LOOPASG_RUS__L_CHILDREN , r_wp, r_wc, r_wo, pend_wp, seen_c, cell_child
+#define LOOP_RUS__L_SYMS \
+  CARRY __CPROVER_loop_invariant(END_RUS__L_SYMS.f0.f0 == 0) \
+  __CPROVER_loop_invariant((q_is_wp && BEGIN_RUS__L_SYMS.f0.f0 == 0) ==> seen_a) \
   __CPROVER_loop_invariant((q_is_wp && seen_a) ==> r_wc)
-#define LOOP_RUS__B_for_cond31 \
-  CARRY __CPROVER_loop_invariant(v___end3_slot.f0 == 0) \
-  __CPROVER_loop_invariant((q_is_wp && cur_a && v___begin3_slot.f0 == 0) ==> seen_b) \
+#define LOOP_RUS__L_TUPLES \
+  CARRY __CPROVER_loop_invariant(END_RUS__L_TUPLES.f0 == 0) \
+  __CPROVER_loop_invariant((q_is_wp && cur_a && BEGIN_RUS__L_TUPLES.f0 == 0) ==> seen_b) \
   __CPROVER_loop_invariant((q_is_wp && cur_a && seen_b) ==> r_wc) \
   __CPROVER_loop_invariant((q_is_wp && !cur_a && seen_a) ==> r_wc)
-#define LOOP_RUS__B_for_cond40 \
-  CARRY __CPROVER_loop_invariant(v___end4_slot.f0 == 0) \
-  __CPROVER_loop_invariant((q_is_wp && cur_a && cur_b && v___begin4_slot.f0 == 0) ==> seen_c) \
+#define LOOP_RUS__L_CHILDREN \
+  CARRY __CPROVER_loop_invariant(END_RUS__L_CHILDREN.f0 == 0) \
+  __CPROVER_loop_invariant((q_is_wp && cur_a && cur_b && BEGIN_RUS__L_CHILDREN.f0 == 0) ==> seen_c) \
   __CPROVER_loop_invariant((q_is_wp && cur_a && cur_b && seen_c) ==> r_wc) \
   __CPROVER_loop_invariant((q_is_wp && cur_a && !cur_b && seen_b) ==> r_wc) \
   __CPROVER_loop_invariant((q_is_wp && !cur_a && seen_a) ==> r_wc)
 /* ---- optional translation map: (s, s) for every state of the computed set ---- */
-#define LOOPASG_RUS__B_for_cond70 , seen_o, cur_o, g_cur_s, cell_s
-#define LOOP_RUS__B_for_cond70 __CPROVER_loop_invariant(v___end266_slot.f0.f0 == 0)
+#define LOOPASG_RUS__L_TRANSL , seen_o, cur_o, g_cur_s, cell_s
+#define LOOP_RUS__L_TRANSL __CPROVER_loop_invariant(END_RUS__L_TRANSL.f0.f0 == 0)
 /* ---- unchanged-operand shortcut: every owner of a cluster in the operand is in the computed set (witness owner wo) ---- */
-#define LOOPASG_RUS__B_for_cond92 , seen_w, cell_cm
-#define LOOP_RUS__B_for_cond92 \
-  __CPROVER_loop_invariant(v___end1_slot.f0.f0 == 0) \
-  __CPROVER_loop_invariant((own_wo && v___begin1_slot.f0.f0 == 0) ==> seen_w) \
+#define LOOPASG_RUS__L_OWNERS , seen_w, cell_cm
+#define LOOP_RUS__L_OWNERS \
+  __CPROVER_loop_invariant(END_RUS__L_OWNERS.f0.f0 == 0) \
+  __CPROVER_loop_invariant((own_wo && BEGIN_RUS__L_OWNERS.f0.f0 == 0) ==> seen_w) \
   __CPROVER_loop_invariant((own_wo && seen_w && v_allOwnersReachable_slot != 0) ==> r_wo)
 /* ---- construction of the result: one cluster per state of the computed set that owns one ---- */
-#define LOOPASG_RUS__B_for_cond127 , seen_o, cur_o, g_cur_s, cell_s, cell_cm, res_has_wo, g_sp_zero, g_sp_zero_obj
-#define LOOP_RUS__B_for_cond127 \
-  __CPROVER_loop_invariant(v___end1123_slot.f0.f0 == 0 && g_resmap == (void*)SP_PTR(&v_result_slot.f2) && g_local == (void*)&v_result_slot) \
-  __CPROVER_loop_invariant((r_wo && v___begin1119_slot.f0.f0 == 0) ==> seen_o) \
+#define LOOPASG_RUS__L_RESULT , seen_o, cur_o, g_cur_s, cell_s, cell_cm, res_has_wo, g_sp_zero, g_sp_zero_obj
+#define LOOP_RUS__L_RESULT \
+  __CPROVER_loop_invariant(END_RUS__L_RESULT.f0.f0 == 0 && g_resmap == (void*)SP_PTR(&v_result_slot.f2) && g_local == (void*)&v_result_slot) \
+  __CPROVER_loop_invariant((r_wo && BEGIN_RUS__L_RESULT.f0.f0 == 0) ==> seen_o) \
   __CPROVER_loop_invariant((r_wo && seen_o && own_wo) ==> res_has_wo) \
   __CPROVER_loop_invariant(res_has_wo ==> r_wo)
